@@ -7,6 +7,8 @@
  *   b  2- and 3-bit combinations inside one protected region (file header, a chunk header, a payload+CRC)
  *   c  bursts of 1..32 bits
  *   d  zeroed / 0xFF / random-overwritten ranges, several chunks at once, END chunk, file-header length
+ *   e  one covered byte altered and the region's CRC recomputed with exactly one of its 32 bits wrong
+ *      (every CRC bit position, every protected region): only a full-width CRC comparison rejects these
  * Each altered copy is opened in its own process; every reader result must be an error, the truth at
  * the requested positions, or a correct prefix of it (when the damage makes the file look unclosed).
  */
@@ -28,7 +30,7 @@
 
 #define NSHARD 16
 
-typedef struct { int thorough; int64_t n_b, n_c, n_d; } ctx_t;
+typedef struct { int thorough; int64_t n_b, n_c, n_d, n_e; } ctx_t;
 
 typedef struct { uint64_t off, end; uint8_t kind; uint8_t tag; } region_t;   /* kind: 0 file header, 1 chunk header, 2 payload+pad+crc */
 
@@ -156,7 +158,7 @@ static const char *tagname(uint8_t tag) {
 }
 
 /* fault description: a list of byte edits */
-typedef struct { char family; int nedit; struct { uint64_t off; uint32_t len; uint8_t mode; uint8_t val; uint64_t seed; } e[4]; char desc[160]; } fault_t;
+typedef struct { char family; int nedit; struct { uint64_t off; uint32_t len; uint8_t mode; uint8_t val; uint64_t seed; } e[8]; char desc[160]; } fault_t;
 /* mode: 0 xor val (single byte), 1 set range to val, 2 random range */
 
 static void apply_fault(uint8_t *buf, size_t size, const fault_t *f) {
@@ -237,6 +239,30 @@ static int make_fault(const plan_t *pl, const ctx_t *c, uint64_t n, fault_t *f) 
         }
         return 1;
     }
+    n -= (uint64_t) c->n_d;
+    if ((int64_t) n < c->n_e) {
+        /* e: a consistent alteration with a near-miss CRC: one covered byte is changed, the CRC is recomputed for the
+         * altered bytes and then ONE of its 32 bits is flipped.  A reader that compares the whole CRC rejects it. */
+        f->family = 'e';
+        const region_t *rg = &pl->reg[(n / 32) % pl->nreg];
+        if ((n / 32 / pl->nreg) % 2) rg = &pl->reg[rng_below(&r, pl->nreg)];
+        uint64_t cov, crc_at;
+        if (rg->kind == 2) { uint32_t plen; memcpy(&plen, pl->file + rg->off - 32 + 20, 4); cov = plen; crc_at = rg->end - 4; }
+        else { cov = 28; crc_at = rg->off + 28; }
+        uint8_t *tmp = malloc(cov);
+        memcpy(tmp, pl->file + rg->off, cov);
+        uint64_t pos = rng_below(&r, cov);
+        uint8_t x = (uint8_t) (1 + rng_below(&r, 255));
+        tmp[pos] ^= x;
+        uint32_t crc = jd_crc32c(tmp, cov) ^ (1u << (n % 32));
+        free(tmp);
+        f->e[0].off = rg->off + pos; f->e[0].len = 1; f->e[0].mode = 0; f->e[0].val = x;
+        for (int i = 0; i < 4; ++i) { f->e[1 + i].off = crc_at + (uint64_t) i; f->e[1 + i].len = 1; f->e[1 + i].mode = 1; f->e[1 + i].val = (uint8_t) (crc >> (8 * i)); }
+        f->nedit = 5;
+        snprintf(f->desc, sizeof(f->desc), "byte %llu of a %s %s altered, CRC recomputed with bit %u wrong", (unsigned long long) (rg->off + pos),
+                 rg->kind == 0 ? "file-header" : tagname(rg->tag), rg->kind == 2 ? "payload" : "header", (unsigned) (n % 32));
+        return 1;
+    }
     return 0;
 }
 
@@ -280,7 +306,7 @@ static void fault_case(uint64_t fi, void *vctx) {
     snprintf(wj, sizeof(wj), "{\"file\":%llu,\"fault\":%llu,\"family\":\"%s\",\"what\":\"%s\",\"region\":\"%s\",\"tag\":\"%s\",\"file_size\":%zu}", (unsigned long long) fc->prog,
              (unsigned long long) fi, fam, f.desc, rk, rg && rg->kind ? tagname(rg->tag) : "-", pl->size);
     v_ctx("file %llu fault %llu %s", (unsigned long long) fc->prog, (unsigned long long) fi, f.desc);
-    v_count("C04", f.family == 'a' ? "faults_single_bit" : f.family == 'b' ? "faults_2_3_bits" : f.family == 'c' ? "faults_burst" : "faults_overwrite", 1);
+    v_count("C04", f.family == 'a' ? "faults_single_bit" : f.family == 'b' ? "faults_2_3_bits" : f.family == 'c' ? "faults_burst" : f.family == 'e' ? "faults_near_miss_crc" : "faults_overwrite", 1);
     if (in_pad) v_count("C04", "faults_in_unprotected_pad_bytes", 1);
     if (f.family == 'd') {
         /* a random overwrite could in principle produce a valid CRC (2^-32): such a case is inconclusive, not a violation */
@@ -330,7 +356,7 @@ static void run_case(uint64_t idx, void *vctx) {
     int prc = make_plan(&pl, &r, path, (int) (prog & 1), (prog % 3) == 1);
     unlink(path);
     if (prc) { if (shard == 0) v_note("C04", "file %llu could not be generated cleanly (rc %d): skipped", (unsigned long long) prog, prc); return; }
-    uint64_t total = pl.abits + (uint64_t) (c->n_b + c->n_c + c->n_d);
+    uint64_t total = pl.abits + (uint64_t) (c->n_b + c->n_c + c->n_d + c->n_e);
     if (shard == 0) {
         v_count("C04", "files", 1);
         v_count("C04", "file_bytes", (int64_t) pl.size);
@@ -367,6 +393,7 @@ int main(int argc, char **argv) {
     c.n_b = v_arg_i(argc, argv, "--nb", c.thorough ? 60000 : 6000);
     c.n_c = v_arg_i(argc, argv, "--nc", c.thorough ? 60000 : 6000);
     c.n_d = v_arg_i(argc, argv, "--nd", c.thorough ? 20000 : 2000);
+    c.n_e = v_arg_i(argc, argv, "--ne", c.thorough ? 64000 : 9600);
     g_check = "flip";
     run_opts_t ro = {.cpu_s = 1200, .wall_s = 3600, .no_fork = v_has_arg(argc, argv, "--no-fork")};
     uint64_t first = (uint64_t) v_arg_i(argc, argv, "--first", 0), count = (uint64_t) v_arg_i(argc, argv, "--count", NSHARD), stride = (uint64_t) v_arg_i(argc, argv, "--stride", 1);
